@@ -22,6 +22,7 @@ def main():
     ap.add_argument("--runs", type=int, default=10000)
     ap.add_argument("--out", required=True)
     ap.add_argument("--work", required=True)
+    ap.add_argument("--prop", default="C06")
     a = ap.parse_args()
 
     from . import common
@@ -35,7 +36,7 @@ def main():
     with atheris.instrument_imports(include=["pvl"], enable_loader_override=False):
         pvl = common.import_pvl()
     from . import gen_text as gt
-    from .props import c06
+    from .props import c05, c06
 
     rec = common.Rec()
     holder = {}
@@ -58,7 +59,12 @@ def main():
         state["n"] += 1
         rec.count("fuzz_executions")
         rec.case(("fuzz", reader, text), text != "")
-        c06.run_one(rec, pvl, reader, text, holder, "coverage-guided")
+        if a.prop == "C06":
+            c06.run_one(rec, pvl, reader, text, holder, "coverage-guided")
+        else:
+            c05.judge_by_laws(rec, pvl, reader, text,
+                              {"reader": reader, "text": text}, holder,
+                              "coverage-guided")
         nv = rec.c.get("violating_observations", 0)
         if state["n"] % 4000 == 0 or nv != state["viol"]:
             state["viol"] = nv
@@ -73,6 +79,15 @@ def main():
                 with open(os.path.join(corpus, f"s{k}_{reader_i}"), "wb") as f:
                     f.write(bytes([reader_i]) + t[:1500].encode("utf-8"))
         k += 1
+    import random
+    rng = random.Random(f"fuzz-{a.prop}-{a.seed}-{a.shard}")
+    for j in range(40):
+        reader_i = rng.randrange(len(gt.READERS))
+        doc = gt.gen_document(rng, gt.READERS[reader_i], max_top=4)
+        t = gt.render(doc.tokens, gt.gen_layout(rng, doc.tokens, gt.READERS[reader_i],
+                                                "wild"))
+        with open(os.path.join(corpus, f"g{j}"), "wb") as f:
+            f.write(bytes([reader_i]) + t[:1500].encode("utf-8"))
     dict_path = os.path.join(a.work, "pvl.dict")
     with open(dict_path, "w") as f:
         for w in ("BEGIN_GROUP", "END_GROUP", "BEGIN_OBJECT", "END_OBJECT", "GROUP",
